@@ -177,9 +177,10 @@ def dict_get(v, key):
             return r if r is not None else dict_get(v.args[0], key)
         if v.op == "ite":
             a, b = dict_get(v.args[1], key), dict_get(v.args[2], key)
-            if a is None or b is None:
+            if a is None and b is None:
                 return None
-            return tm.ite(v.args[0], a, b)
+            miss = T("undef", (key,))
+            return tm.ite(v.args[0], miss if a is None else a, miss if b is None else b)
         if v.op == "mutated":
             return dict_get(v.args[1], key)
         if v.op == "fold":
